@@ -1,6 +1,7 @@
 package rules
 
 import (
+	"go/constant"
 	"go/token"
 	"go/types"
 	"regexp"
@@ -468,11 +469,27 @@ func (c *c13) assertOK() {
 func (c *c13) constIndex() {
 	e, r := c.e, c.e.R
 	r.Rule("C13.const-index", "DCS", "constant index into a splitter's result is covered by the splitter's guarantee or a length test", 1)
-	var fns []*ssa.Function
+	// the loader packages and the repository helpers they call (internal/util's
+	// command splitters run for every step of every load)
+	inScope := map[*ssa.Function]bool{}
 	for f := range c.scope {
+		inScope[f] = true
+		for _, g := range e.staticClosure(f) {
+			if e.P.Funcs[g] {
+				inScope[g] = true
+			}
+		}
+	}
+	var fns []*ssa.Function
+	for f := range inScope {
 		fns = append(fns, f)
 	}
-	sort.Slice(fns, func(i, j int) bool { return fns[i].Pos() < fns[j].Pos() })
+	sort.Slice(fns, func(i, j int) bool {
+		if fns[i].Pos() != fns[j].Pos() {
+			return fns[i].Pos() < fns[j].Pos()
+		}
+		return fns[i].String() < fns[j].String()
+	})
 	producer := func(v ssa.Value) (guaranteed int64, name string, ok bool) {
 		call, isC := ir.Resolve(v).(*ssa.Call)
 		if !isC {
@@ -507,6 +524,16 @@ func (c *c13) constIndex() {
 					base, idx = x.X, x.Index
 				case *ssa.Index:
 					base, idx = x.X, x.Index
+				case *ssa.Slice:
+					// pieces[k:] needs k <= len: as index k-1
+					if x.Low == nil {
+						continue
+					}
+					if lk, isK := ir.ConstInt(x.Low); isK && lk > 0 {
+						base, idx = x.X, ssa.NewConst(constant.MakeInt64(lk-1), types.Typ[types.Int])
+					} else {
+						continue
+					}
 				default:
 					continue
 				}
@@ -519,26 +546,62 @@ func (c *c13) constIndex() {
 					continue
 				}
 				n++
-				ok := k < g
-				if !ok {
-					for _, l := range e.DCS(in) {
-						if l.Kind != "cmp" {
+				// the least length the pieces can have here: the splitter's guarantee,
+				// raised by the dominating length tests (c < len, c <= len, len == c, and
+				// len != c when c is the current minimum)
+				lo := g
+				var excluded []int64
+				for _, l := range e.DCS(in) {
+					if l.Kind != "cmp" {
+						continue
+					}
+					lx, xIsLen := lenArg(l.X)
+					ly, yIsLen := lenArg(l.Y)
+					xIsLen = xIsLen && ir.Resolve(lx) == ir.Resolve(base)
+					yIsLen = yIsLen && ir.Resolve(ly) == ir.Resolve(base)
+					switch {
+					case yIsLen:
+						cst, isC := ir.ConstInt(l.X)
+						if !isC {
 							continue
 						}
-						lx, xIsLen := lenArg(l.X)
-						ly, yIsLen := lenArg(l.Y)
-						switch {
-						case yIsLen && ir.Resolve(ly) == ir.Resolve(base): // c < len, c <= len
-							if cst, isC := ir.ConstInt(l.X); isC && ((l.Op == token.LSS && cst >= k) || (l.Op == token.LEQ && cst > k)) {
-								ok = true
+						switch l.Op {
+						case token.LSS:
+							if cst+1 > lo {
+								lo = cst + 1
 							}
-						case xIsLen && ir.Resolve(lx) == ir.Resolve(base): // len == c
-							if cst, isC := ir.ConstInt(l.Y); isC && l.Op == token.EQL && cst > k {
-								ok = true
+						case token.LEQ, token.EQL:
+							if cst > lo {
+								lo = cst
 							}
+						case token.NEQ:
+							excluded = append(excluded, cst)
+						}
+					case xIsLen:
+						cst, isC := ir.ConstInt(l.Y)
+						if !isC {
+							continue
+						}
+						switch l.Op {
+						case token.EQL:
+							if cst > lo {
+								lo = cst
+							}
+						case token.NEQ:
+							excluded = append(excluded, cst)
 						}
 					}
 				}
+				for changed := true; changed; {
+					changed = false
+					for _, x := range excluded {
+						if x == lo {
+							lo++
+							changed = true
+						}
+					}
+				}
+				ok := k < lo
 				r.Check(ok, shortName(f)+": index "+sprintf("%d", k)+" of "+name+"(…) is within what the splitter guarantees or a dominating length test", e.InstrPos(in),
 					"a fixed index into the pieces of a split string is not covered by a length test: an input without the expected separator panics the loader with an index out of range", e.FactsStr("dominating conditions: ", e.DCS(in)))
 			}
